@@ -8,7 +8,9 @@
 From Coq Require Import List Bool Arith.
 Import ListNotations.
 
-Inductive lkind := LSensor | LActuator | LEnv | LWrapObj | LWrapFn.
+(* LSelf: the callbacks and the state that a user subclass of a dictionary composite has of its own; it sits in the
+   composite as a pseudo-child under the reserved name [n_self] *)
+Inductive lkind := LSensor | LActuator | LEnv | LWrapObj | LWrapFn | LSelf.
 Inductive nkind := NInteraction | NAgent | NModEnv | NSensorsDict | NActuatorsDict | NSensorWrap | NActWrap | NEnvWrap.
 
 Inductive node :=
@@ -18,7 +20,7 @@ Inductive node :=
 (* names of the fixed children (numbers >= 1000); dict keys and child-agent names are < 1000 *)
 Definition n_agent := 1000. Definition n_environment := 1001. Definition n_sensor := 1002.
 Definition n_actuator := 1003. Definition n_wrapper := 1004. Definition n_env := 1005.
-Definition n_obs_wrapper := 1006. Definition n_act_wrapper := 1007.
+Definition n_obs_wrapper := 1006. Definition n_act_wrapper := 1007. Definition n_self := 1008.
 
 Inductive event := EvSetup | EvTeardown | EvPaused | EvResumed | EvAttachModels | EvAttachCollectors.
 
@@ -95,7 +97,7 @@ Fixpoint observe (n : node) : value :=
       let wid name := wrapper_id (child name cs) in
       match k with
       | NModEnv => sub n_sensor
-      | NSensorsDict => Dict subs
+      | NSensorsDict => Dict (filter (fun kv => negb (Nat.eqb (fst kv) n_self)) subs)   (* the composite's own part carries no data *)
       | NSensorWrap => match wid n_wrapper with Some w => App w (sub n_sensor) | None => Bad end
       | NEnvWrap => match wid n_obs_wrapper with Some w => App w (sub n_env) | None => Bad end
       | _ => Bad
